@@ -136,7 +136,10 @@ func NewEnvManager(tm *task.Manager, incomingEventCh chan event.Event) *Manager 
 
 						instance.mu.Lock()
 						close(thisEnvCh)
-						delete(instance.pendingTeardownsCh, typedEvent.GetEnvironmentId())
+						// TeardownEnvironment may already have registered the channel for its next release round
+						if instance.pendingTeardownsCh[typedEvent.GetEnvironmentId()] == thisEnvCh {
+							delete(instance.pendingTeardownsCh, typedEvent.GetEnvironmentId())
+						}
 						instance.mu.Unlock()
 
 					} else {
